@@ -27,17 +27,17 @@ def f2(q):
     return float(Fr(q[0], q[1]))
 
 
-def box_mesh(dim, elem):
+def box_mesh(dim, elem, fine=False):
     from EasyFEA import Mesher, ElemType
     from EasyFEA.Geoms import Domain, Point
 
-    key = (dim, elem)
+    key = (dim, elem, fine)
     if key not in _MESH:
         with quiet():
             if dim == 2:
-                _MESH[key] = Mesher().Mesh_2D(Domain(Point(0, 0), Point(3, 2), 1.1), [], ElemType(elem))
+                _MESH[key] = Mesher().Mesh_2D(Domain(Point(0, 0), Point(3, 2), 0.4 if fine else 1.1), [], ElemType(elem))
             else:
-                _MESH[key] = Mesher().Mesh_Extrude(Domain(Point(0, 0), Point(3, 2), 1.3), [], [0, 0, 2], [2], ElemType(elem))
+                _MESH[key] = Mesher().Mesh_Extrude(Domain(Point(0, 0), Point(3, 2), 0.25 if fine else 1.3), [], [0, 0, 2], [8 if fine else 2], ElemType(elem))
     return _MESH[key]
 
 
@@ -47,12 +47,12 @@ def run_case(job):
 
     c = case["cfg"]
     dim = c["dim"]
-    key = f"{phys}{dim}D/{elem}/{c['kind']}/{c['region']}/{c['dens'][0]}/{c['form']}" + ("/stray" if c["stray"] else "") + ("/dup" if c.get("dup") else "")
+    key = f"{phys}{dim}D/{elem}/{c['kind']}/{c['region']}/{c['dens'][0]}/{c['form']}" + ("/stray" if c["stray"] else "") + ("/flood" if c.get("flood") else "") + ("/dup" if c.get("dup") else "")
     viol = []
     vec = phys != "thermal"
     kw = {}
     try:
-        mesh = box_mesh(dim, elem)
+        mesh = box_mesh(dim, elem, fine=bool(c.get("flood")))
         th = f2(c["thick"])
         with quiet():
             if vec:
@@ -74,7 +74,13 @@ def run_case(job):
         nodes = mesh.Nodes_Conditions(REGION[c["region"]])
         if c["stray"]:
             X = mesh.coord
-            inner = np.where((X[:, 0] > 0.2) & (X[:, 0] < 2.8) & (X[:, 1] > 0.2) & (X[:, 1] < 1.8) & ((X[:, 2] > 0.2) & (X[:, 2] < 1.8) if dim == 3 else True))[0][:2]
+            inner = np.where((X[:, 0] > 0.2) & (X[:, 0] < 2.8) & (X[:, 1] > 0.2) & (X[:, 1] < 1.8) & ((X[:, 2] > 0.2) & (X[:, 2] < 1.8) if dim == 3 else True))[0]
+            if c.get("flood"):
+                nb = sum(g.Nn for g in mesh.Get_list_groupElem(dim - 1))
+                if nodes.size + inner.size < nb:
+                    raise RuntimeError(f"harness: the flooded selection ({nodes.size + inner.size} nodes) is smaller than the boundary ({nb} nodes)")
+            else:
+                inner = inner[:2]
             nodes = np.concatenate([nodes, inner])
         if c.get("dup"):
             nodes = np.concatenate([nodes, nodes[:2]])  # the same region, two nodes listed twice
@@ -130,7 +136,7 @@ def run_case(job):
             if np.abs(got[:dim] - M[:dim]).max() > 1e-10 * max(np.abs(M).max(), 1.0):
                 viol.append((f"moment/{key}", f"{key}: first moments of the nodal forces {got[:dim].ravel()} differ from the moments of the density {M[:dim].ravel()}", {"case": case, "elem": elem}))
         # nodes that bound no loaded element carry no force
-        if c["stray"] and np.abs(F[nodes[-2:]]).max() > 0:
+        if c["stray"] and np.abs(F[inner]).max() > 0:
             viol.append((f"stray/{key}", f"{key}: nodes that bound no loaded element received a force", {"case": case, "elem": elem}))
     except Exception as ex:
         import traceback
